@@ -86,6 +86,19 @@ def tokens(tier, rng):
         lit(2, "12", "U", max(w, 8), "_")       # the Rust lexer rejects it
         lit(8, "8", "U", max(w, 8), "_")
         lit(10, "1g", "U", max(w, 8), "_")
+    # hexadecimal literals whose DIGITS contain b / B / u-like shapes, both suffix kinds, with and without separator, random
+    # letter case: the suffix must be found from the right, not at the first U or B
+    for w, v in ((8, 0xB0), (8, 0xAB), (8, 0xBB), (8, 0x0B), (16, 0xB0B0), (16, 0xABBA), (32, 0xDEADBEEF), (32, 0xB16B00B5),
+                 (64, 0xB8B8B8B8B8B8B8B8), (64, 0xABCDEF0123456789), (128, 0xB << 124), (65, (1 << 64) | 0xB),
+                 (256, int("B" * 64, 16)), (12, 0xB8B), (4, 0xB), (3, 0xB)):
+        h = text(v, 16)
+        forms = {h, h.upper(), "".join(c.upper() if c == "b" else c for c in h), "".join(c.upper() if rng.random() < 0.5 else c for c in h)}
+        if len(h) > 2:
+            forms.add(h[:1].upper() + "_" + h[1:].upper())
+        for d in sorted(forms):
+            for kind in ("U", "B"):
+                for sep in ("_", ""):
+                    lit(16, d, kind, w, sep)
     # non-matching tokens: must pass through unchanged
     for t in ["1_u8", "300_u16", "0xAB12", "0xffB8", "0xBBBB_B432_u64", "12", "0b101", "0o17", "1_000_000u64", "255u8", "0xB", "0xB8",
               "0xABB16", "2.5", "1.0_f64", "1e3", '"5_U8"', '"U8"', "'U'", "'B'", 'b"1_U8"', "true", "0x1B8_i32", "0xffu8", "7_i64",
@@ -267,4 +280,4 @@ def main(tier, seed, replay, t0):
              "observed": {"expanded": nexp, "rejected": nerr, "passed_through": len(events) - nexp - nerr}}
     return runner.finish("C19", tier, seed, res, t0, LEVEL, RULE, vlib.DEFAULT_ASSUMPTIONS + [
         "rustc's JSON diagnostics attribute each compile error to the source line of the probe function that caused it"],
-        extra_cov=extra)
+        extra_cov=extra, evidence_name="C19_replay" if replay else None)
